@@ -44,6 +44,8 @@ def threaded_scenario(draw) -> Dict[str, Any]:
         elif kind == 'browser':
             op['type'] = draw(st.integers(0, 1))
             op['slow_ms'] = draw(st.sampled_from([0, 0, 0, 100]))
+            # the listener starts further browsers from its callbacks (browse the type enumeration, then every type found)
+            op['spawn'] = draw(st.sampled_from([0, 0, 0, 1, 2]))
         elif kind == 'announce':
             op['type'] = draw(st.integers(0, 1))
             op['n'] = draw(st.integers(1, 4))
@@ -56,6 +58,13 @@ def threaded_scenario(draw) -> Dict[str, Any]:
         elif kind == 'sleep':
             op['ms'] = draw(st.sampled_from([1, 50, 200, 500, 1300]))
         ops.append(op)
+    if draw(st.integers(0, 5)) == 0:
+        # a slow listener that starts another browser from each of its callbacks; callbacks are still outstanding when close()
+        # is requested, so browsers come into being while close() is removing them
+        ops = [{'op': 'announce', 'type': 0, 'n': 2}, {'op': 'browser', 'type': 1, 'slow_ms': 100, 'spawn': draw(st.integers(1, 3))}] + \
+              [{'op': 'announce', 'type': 1, 'n': draw(st.integers(1, 4))} for _ in range(draw(st.integers(1, 3)))]
+        return {'kind': 'threaded', 'jitter': draw(st.integers(0, 10**6)), 'ops': ops,
+                'close_after_ms': draw(st.sampled_from([0, 50, 150, 300])), 'how': draw(st.sampled_from(['close', 'with'])), 'post_traffic': 0}
     if draw(st.integers(0, 3)) == 0:
         # close() first withdraws what is registered and then joins the browser threads, which takes as long as their listeners
         # do - while the loop thread goes on: a registration made on another thread may complete in that time
@@ -73,18 +82,31 @@ def threaded_scenario(draw) -> Dict[str, Any]:
 class ThreadListener:
     """ServiceListener for the thread-based ServiceBrowser; every callback is stamped with the global sequence number."""
 
-    def __init__(self, w: rtsim.RTWorld, slow_ms: int) -> None:
+    def __init__(self, w: rtsim.RTWorld, slow_ms: int, spawn: int = 0, spawn_type: str = '', children: Optional[List['ThreadListener']] = None) -> None:
         self.w, self.slow_ms = w, slow_ms
         self.events: List[Tuple[int, str, str, int]] = []
+        self.spawn, self.spawn_type, self.children = spawn, spawn_type, children
+        self.spawn_outcomes: List[str] = []
+        self.spawn_g: List[int] = []
 
-    def _cb(self, kind: str, name: str) -> None:
+    def _cb(self, kind: str, name: str, zc: Any = None) -> None:
         g0 = self.w.next_g()
         if self.slow_ms:
             self.w.sleep_ms(self.slow_ms)
+        if self.spawn > 0 and zc is not None and self.children is not None:
+            self.spawn -= 1
+            child = ThreadListener(self.w, 0)
+            self.children.append(child)
+            self.spawn_g.append(self.w.next_g())
+            try:
+                zc.add_service_listener(self.spawn_type, child)
+                self.spawn_outcomes.append('ok')
+            except BaseException as e:  # noqa  (the instance may be closing: whatever it raises is the application's to handle)
+                self.spawn_outcomes.append(type(e).__name__)
         self.events.append((g0, kind, name, self.w.next_g()))
 
     def add_service(self, zc: Any, type_: str, name: str) -> None:
-        self._cb('add', name)
+        self._cb('add', name, zc)
 
     def remove_service(self, zc: Any, type_: str, name: str) -> None:
         self._cb('remove', name)
@@ -147,6 +169,7 @@ def _check_threaded(case: Dict[str, Any]) -> Dict[str, Any]:
     registered: List[int] = []      # services whose blocking register_service() returned (and were not unregistered)
     infos: Dict[int, Any] = {}
     announced: List[str] = []
+    threads_before = set(threading.enumerate())
     with rtsim.RTWorld(case['jitter']) as w:
         zc = w.start()
         plain = PlainListener(w)
@@ -175,7 +198,7 @@ def _check_threaded(case: Dict[str, Any]) -> Dict[str, Any]:
                 k = registered.pop(0)
                 zc.unregister_service(infos[k])
             elif kind == 'browser':
-                lst = ThreadListener(w, op['slow_ms'])
+                lst = ThreadListener(w, op['slow_ms'], op.get('spawn', 0), TYPES[1 - op['type']], listeners)
                 listeners.append(lst)
                 zc.add_service_listener(TYPES[op['type']], lst)
                 browser_threads.append(zc.browsers[lst])
@@ -254,6 +277,9 @@ def _check_threaded(case: Dict[str, Any]) -> Dict[str, Any]:
         if loop_thread is not None and loop_thread.is_alive():
             raise Violation('the event-loop thread started by Zeroconf() is still alive after close() returned', det, tag='threaded-loop-thread-alive')
         alive = [t.name for t in browser_threads if t.is_alive()]
+        # browsers started from callbacks included: any thread of the library that came into being during this case
+        alive += [t.name for t in threading.enumerate() if t not in threads_before and t.is_alive() and t.name.startswith('zeroconf-')
+                  and t.name not in alive]
         if alive:
             raise Violation('thread of a ServiceBrowser still alive after close() returned', dict(det, threads=alive), tag='threaded-browser-thread-alive')
         for lst in listeners:
@@ -319,6 +345,10 @@ def _check_threaded(case: Dict[str, Any]) -> Dict[str, Any]:
         classes.append('threaded-close-with-queued-answers')
     if listeners:
         classes.append('threaded-close-with-thread-browsers')
+    if any(l.spawn_outcomes for l in listeners):
+        classes.append('threaded-browser-started-from-a-callback')
+    if any(g_call < g < g_done for l in listeners for g in l.spawn_g):
+        classes.append('threaded-browser-started-from-a-callback-while-close-was-under-way')
     if any(b.exc is not None for b in bgs):
         classes.append('threaded-in-flight-call-raised-documented-exception')
     return {'nontrivial': bool(in_flight or in_registry or queued or listeners), 'classes': classes, 'max': {'ops': len(case['ops'])},
